@@ -11,3 +11,7 @@ def run(ctx):
     ctx.prove(MODULE, THEOREMS, extra_targets=DRIVERS)
     ctx.assumptions += chan.ASSUMPTIONS
     chan.explore(ctx, chan.C02_ORACLES)
+
+
+def replay(ctx, path):
+    return chan.replay(ctx, path, chan.C02_ORACLES)
